@@ -697,6 +697,13 @@ fn judge(tokens: &[Token], p: &Piped, intended: Option<&R>, source: Option<&[Tok
             // the folding rules only remove operations that are exact in binary64 (x+0, x-0, 0-x, x/1, x^0, 0*x for a
             // finite x, 0^n), so folded and unfolded values agree exactly — no scale-dependent tolerance here
             if !(got == want || (got - want).abs() <= 1e-14 * want.abs()) {
+                if !big.is_finite() {
+                    // the finite unfolded value was reached THROUGH an infinite intermediate: a division by a zero whose sign
+                    // the rule 0*x -> 0 does not keep (0 * x is -0 for a negative finite x, the folded literal is +0), e.g.
+                    // n^(1/(0*pi*X)) at X < 0.  Classed separately (known finding F-C19-signed-zero) so that every other
+                    // change of a finite value stays an ordinary failure.
+                    return Err(format!("folding changed the value at point {k}: {want:?} became {got:?} (signed zero: the unfolded evaluation passes through an infinite intermediate value)"));
+                }
                 return Err(format!("folding changed the value at point {k}: {want:?} became {got:?}"));
             }
         }
